@@ -64,7 +64,7 @@ PROPS = {
                 "(3) three random byte-level mutations per message (truncate, flip, replace, insert, delete, append, pad a LEB, increment) decoded at the original and at the opt-wrapped types; "
                 "non-trivial = every case except an unchanged mutation; distinct = distinct request lines",
         "trusted": [
-            "the model is the specification-level decoder Wire.decodeArgs (decode M^-1 at the wire types, then the coercion relation as a function), not a mirror of de.rs; the Rust decoder interleaves the two, every wire byte is validated either way",
+            "the model answering this property's requests is the specification-level decoder Wire.decodeArgs (decode M^-1 at the wire types, then the coercion relation as a function); the mirror of de.rs (De.lean, which interleaves the two as the Rust does) is tied to the implementation by the de.* requests of C06/C07 and to Wire.decodeArgs by the theorems of Props/C02",
             "limits of the implementation that are part of both sides: type table <= 10000, header/index numbers <= 10 LEB bytes, value lengths <= 9 LEB bytes, principals <= 29 bytes; nesting depth is bounded by a fuel of 600 in the model and by the stack guard in Rust (the generators stay far below both)",
             "reference types are compared with Sub.subAlg (see C05); binread's derive combinators are modelled by hand",
             "String.fromUTF8? (Lean core) is the UTF-8 validity oracle",
@@ -74,7 +74,7 @@ PROPS = {
             "expected environments never define names of the form table<i> except in the targeted corpus case",
         ],
         "partial": [
-            "the headline theorem decode_eq_spec (de.rs = Wire.decodeArgs for all inputs) is not a theorem: de.rs is not modelled line by line; the equality is established by the correspondence. Proved: properties of the specification decoder itself (reserved/null/empty rules, trailing bytes, magic) and, in C03/C10, its round trip with the encoder model",
+            "de.rs itself is tied to its mirror De.lean by the correspondence only. Proved about the mirror, for all inputs: (only if) what it accepts is a well-formed message; (if, first-order types: no function/service reference within reach, fields in ascending id order) decoding any value the specification's reader M^-1 accepts - padded LEB128 included - at any expected type returns exactly the specification's coercion and leaves what the reader leaves, or both report a subtype failure, unless a depth budget runs out; argument sequences and whole messages against Wire.decodeArgs. Not a theorem: the same with reference types in the expected or wire type (the decoder turns an exhausted checker budget into a subtype failure; needs the checker's termination bound), and metered runs directly (C07's theorems relate them to unmetered runs)",
         ],
     },
     "C03": {
@@ -184,7 +184,7 @@ PROPS = {
             "chains whose environment contains an options-all-the-way-down type are excluded from the coherence oracle (known finding KF-C04-mu-opt); the pair op still reports them under that finding",
         ],
         "partial": [
-            "soundness `Sub t t' -> v : t -> coerce t t' v succeeds` for all types and values is not yet a theorem: proved are the rules for reserved, nat<:int, primitives, null/reserved<:opt, and the mechanism lemma that an option position never propagates a coercion failure; the rest is established on the generated pairs only",
+            "proved for all inputs: on the specification side a canonical value of a subtype always coerces (never a subtype failure, malformed value or panic), and the result inhabits the supertype; on the decoder mirror, for first-order types, decoding a value of a subtype returns exactly that coercion or is stopped by the depth budget. Not theorems: the decoder-side statement with reference types, and that some coercion budget always suffices (the statements are conditional on the budget not running out)",
             "coherence is checked on the implementation only",
         ],
     },
